@@ -217,7 +217,11 @@ fn check_injection(t: &mut Tape, cx: &mut Cx) -> Res {
     let expected = match kind {
         2 => {
             cx.class("fault: unknown attribute type");
-            let x = if t.chance(40) { [20u16, 40, 41, 255, 256, 65535][t.below(6)] } else { 40 + t.below(65496) as u16 };
+            let x = match t.below(10) {
+                0..=2 => [20u16, 40, 41, 255, 256, 65535][t.below(6)],
+                3..=5 => 40 + t.below(64) as u16, // just above the assigned range: numbers later RFCs assigned
+                _ => 40 + t.below(65496) as u16,
+            };
             let n = t.below(16);
             let p = t.blob(n);
             let bits = if t.chance(50) { 1 } else { t.byte() & 0x3d };
@@ -284,8 +288,16 @@ fn check_injection(t: &mut Tape, cx: &mut Cx) -> Res {
                 1 => vec![t.byte(), t.byte(), 0, t.below(9) as u8],
                 _ => vec![],
             };
-            let n = t.below(8);
+            // the valid part before the fault: usually short, sometimes filling the AVP to (or close to) its 1023-octet maximum
+            let room = 1017 - p.len() - 8;
+            let n = match t.below(8) {
+                0 => room,
+                1 => room - 1 - t.below(4),
+                2 => t.below(room),
+                _ => t.below(8),
+            };
             p.extend_from_slice(t.utf8(n).as_bytes());
+            let at_max = n >= room - 5;
             p.extend_from_slice(match t.below(5) {
                 0 => &[0xff][..],
                 1 => &[0xc0, 0xaf][..],     // overlong
@@ -293,15 +305,42 @@ fn check_injection(t: &mut Tape, cx: &mut Cx) -> Res {
                 3 => &[0xf4, 0x90, 0x80, 0x80][..], // beyond U+10FFFF
                 _ => &[0xe2, 0x82][..],     // truncated sequence (at the end, or followed by ASCII)
             });
-            let n2 = t.below(4);
+            let n2 = if at_max { 0 } else { t.below(4) };
             for _ in 0..n2 {
                 p.push(b'a' + t.below(26) as u8);
+            }
+            if at_max {
+                // pad in front so that the AVP is exactly 1023 octets and the broken sequence is its very end
+                let fixed = match attr {
+                    12 => 3,
+                    1 => 4,
+                    _ => 0,
+                };
+                while p.len() < 1017 {
+                    p.insert(fixed, b'x');
+                }
+                cx.class("fault: invalid utf-8 at the very end of a 1023-octet AVP");
             }
             rec(&mut bad, 0, attr, &p);
             DecodeError::InvalidUtf8(attr)
         }
     };
-    // surrounding good AVPs
+    // surrounding good AVPs (occasionally thousands of small ones in front: the fault sits deep in a large message)
+    if t.chance(1) {
+        let n_before = [255usize, 256, 1023, 1024, 4095, 4096, 4097, 8190, 8191][t.below(9)];
+        let mut region = Vec::with_capacity(n_before * 6 + bad.len() + 64);
+        encode_avp(&msg_type_avp(t), &mut region);
+        for _ in 0..n_before {
+            region.extend_from_slice(&[0x01, 0x06, 0, 0, 0, 39]);
+        }
+        if region.len() + bad.len() + 12 + 8 <= 65535 {
+            region.extend_from_slice(&bad);
+            region.extend_from_slice(&[0x01, 0x08, 0, 0, 0, 9, 0, 5]);
+            let msg = control_around(t, &region);
+            cx.class("fault behind hundreds or thousands of small AVPs");
+            return expect_msg_ref(&msg, STRICT, &expected, cx);
+        }
+    }
     let before = t.below(4);
     let after = t.below(4);
     let mut region = Vec::new();
